@@ -47,10 +47,14 @@ theorem notJoint_of_coin {ctx : Ctx} (hc : Coin ctx) {e : Expr} (hg : Good ctx.S
 /-- the invariant in every context of a class -/
 def Inv (C : Ctx → Prop) (q : Query) (G : MG Name) : Prop := ∀ ctx, C ctx → SemInv ctx q G
 
+/-- a side condition on (active interventions, domain, usable experiments) that the recursion maintains -/
+def Stable (K : Query → Prop) : Prop :=
+  ∀ q q', K q → q'.active = q.active → q'.domain = q.domain → (q'.surr = q.surr ∨ q'.surr = []) → K q'
+
 /-- **the hook for lines 6 / 7**: whatever `step67` returns at a query that satisfies the invariants (lines 1-4 not
 applicable) is sound in every context of the class -/
-def H67 (sep : SepTest) (C : Ctx → Prop) (Mb : Nat) : Prop :=
-  ∀ (fuel : Nat) (q : Query) (G : MG Name), QInv Mb q G → Inv C q G → q.X.isEmpty = false →
+def H67 (sep : SepTest) (C : Ctx → Prop) (K : Query → Prop) (Mb : Nat) : Prop :=
+  ∀ (fuel : Nat) (q : Query) (G : MG Name), QInv Mb q G → Inv C q G → K q → q.X.isEmpty = false →
     ∀ anc, G.ancestorsInclusive q.Y = .ok anc → (diff' (regularNodes G) anc).isEmpty = true →
     ∀ extra, noEffectOnOutcomes G q.X q.Y = .ok extra → extra.isEmpty = true →
     ¬ (G.removeNodes q.X).districts.length > 1 →
@@ -104,13 +108,13 @@ theorem two_le_length_of_ssub {c c' : List Name} (_hc' : c'.Nodup) (hne : c ≠ 
   simpa using hsub2.length_le
 
 /-- **the recursion is sound in every context of the class** -/
-theorem trsoF_sound_engine (sep : SepTest) (C : Ctx → Prop) {c₀ : Ctx} (h₀ : C c₀) (hcoin : Coin c₀) (Mb : Nat)
-    (h67 : H67 sep C Mb) :
-    ∀ (fuel : Nat) (q : Query) (G : MG Name), QInv Mb q G → Inv C q G →
+theorem trsoF_sound_engine (sep : SepTest) (C : Ctx → Prop) {c₀ : Ctx} (h₀ : C c₀) (hcoin : Coin c₀)
+    (K : Query → Prop) (hK : Stable K) (Mb : Nat) (h67 : H67 sep C K Mb) :
+    ∀ (fuel : Nat) (q : Query) (G : MG Name), QInv Mb q G → Inv C q G → K q →
       ∀ e, trsoF sep fuel q = .ok (some e) → ∀ ctx, C ctx → Sound ctx q G e
-  | 0, _, _, _, _, _, he, _, _ => by simp [trsoF] at he
-  | fuel + 1, q, G, hq, hI, e, he, ctx, hctx => by
-    have ih := trsoF_sound_engine sep C h₀ hcoin Mb h67 fuel
+  | 0, _, _, _, _, _, _, he, _, _ => by simp [trsoF] at he
+  | fuel + 1, q, G, hq, hI, hKq, e, he, ctx, hctx => by
+    have ih := trsoF_sound_engine sep C h₀ hcoin K hK Mb h67 fuel
     have h := hI ctx hctx
     have hclean : Clean q.expr := (hI c₀ h₀).good.1
     have hg : q.graph = .ok G := hq.look
@@ -132,7 +136,7 @@ theorem trsoF_sound_engine (sep : SepTest) (C : Ctx → Prop) {c₀ : Ctx} (h₀
         obtain ⟨q', hq', he2⟩ := bind_ok he
         obtain ⟨o, ho, he3⟩ := bind_ok he2
         clear he he2
-        obtain ⟨q'', G'', hq'', hinv'', _⟩ := qline2_ok hq hanc hne' (fun _ => True)
+        obtain ⟨q'', G'', hq'', hinv'', _, _, hsu, hac, hdo⟩ := qline2_ok hq hanc hne' (fun _ => True)
           (fun r => by obtain ⟨e', he', _⟩ := line2_expr_ok (dom := q.domain) (r := r) hclean; exact ⟨e', he', trivial⟩)
         have hqq : q'' = q' := by rw [hq'] at hq''; exact (Except.ok.inj hq'').symm
         subst hqq
@@ -144,7 +148,8 @@ theorem trsoF_sound_engine (sep : SepTest) (C : Ctx → Prop) {c₀ : Ctx} (h₀
         have hI' : Inv C q'' (G.subgraph (nsort anc)) := fun c hc => (sound_line2 hq (hI c hc) hanc hne' hq').1
         refine sound_c14n (fun e1 he1 => ?_) he3
         subst he1
-        exact (ih q'' _ hinv'' hI' e1 ho ctx hctx).congr (sound_line2 hq h hanc hne' hq').2
+        exact (ih q'' _ hinv'' hI' (hK q q'' hKq hac hdo (Or.inl hsu)) e1 ho ctx hctx).congr
+          (sound_line2 hq h hanc hne' hq').2
       · rename_i hall0
         have hall : (diff' (regularNodes G) anc).isEmpty = true := by simpa using hall0
         obtain ⟨extra, hex⟩ := hq.noEffect_ok
@@ -159,7 +164,7 @@ theorem trsoF_sound_engine (sep : SepTest) (C : Ctx → Prop) {c₀ : Ctx} (h₀
           have hI' : Inv C (line3 q extra) G := fun c hc => (sound_line3 hq (hI c hc) hex).1
           refine sound_c14n (fun e1 he1 => ?_) he
           subst he1
-          exact (ih _ _ hinv' hI' e1 ho ctx hctx).congr (sound_line3 hq h hex).2
+          exact (ih _ _ hinv' hI' (hK q _ hKq rfl rfl (Or.inl rfl)) e1 ho ctx hctx).congr (sound_line3 hq h hex).2
         · rename_i hemp0
           have hemp : extra.isEmpty = true := by simpa using hemp0
           have hT := hq.tnodes_in_X hex hemp
@@ -183,12 +188,13 @@ theorem trsoF_sound_engine (sep : SepTest) (C : Ctx → Prop) {c₀ : Ctx} (h₀
               have hterms : List.Forall₂ (fun s t => Sound ctx s G t)
                   (line4 q G (G.removeNodes q.X).districts) terms := by
                 refine forall₂_imp_mem hF (fun s hs t hst => ?_)
-                obtain ⟨hinv', _, hexpr, _, _⟩ := h4 s hs
+                obtain ⟨hinv', _, hexpr, hsu, hac⟩ := h4 s hs
                 have hdom : s.domain = q.domain := by
                   unfold line4 at hs
                   obtain ⟨c, _, rfl⟩ := List.mem_map.1 hs
                   rfl
-                exact ih s G hinv' (fun c hc => (hI c hc).congr hexpr hdom) t hst ctx hctx
+                exact ih s G hinv' (fun c hc => (hI c hc).congr hexpr hdom) (hK q s hKq hac hdom (Or.inl hsu))
+                  t hst ctx hctx
               exact sound_line4 hq h hT hterms hs he'
           · -- lines 6-11
             rename_i hlen
@@ -199,7 +205,7 @@ theorem trsoF_sound_engine (sep : SepTest) (C : Ctx → Prop) {c₀ : Ctx} (h₀
               obtain ⟨e', he', he⟩ := bind_ok he
               have : e' = e := by simpa [pure, Except.pure] using he
               subst this
-              obtain ⟨g1, n1, d1⟩ := h67 fuel q G hq hI hXne anc hanc hall extra hex hemp hlen e67 hvia ctx hctx
+              obtain ⟨g1, n1, d1⟩ := h67 fuel q G hq hI hKq hXne anc hanc hall extra hex hemp hlen e67 hvia ctx hctx
               exact ⟨good_canonicalize ctx.S g1 he', sumND_canonicalize n1 he',
                 fun σ => by rw [denL_canonicalize ctx.S g1 n1 he' σ, d1 σ]⟩
             | none =>
@@ -313,7 +319,9 @@ theorem trsoF_sound_engine (sep : SepTest) (C : Ctx → Prop) {c₀ : Ctx} (h₀
                           exact hx.ign z hz ((mem_regular_subgraph hc'n).1 hz').1
                       refine sound_c14n (fun e1 he1 => ?_) he3
                       subst he1
-                      refine (ih q'' _ hinv' hI' e1 hr ctx hctx).congr (fun σ => ?_)
+                      have hKq' : K q'' := hK q q'' hKq hact hdom
+                        (hs.elim (fun a => Or.inl (hsurr.trans a.1)) (fun a => Or.inr (hsurr.trans a.1)))
+                      refine (ih q'' _ hinv' hI' hKq' e1 hr ctx hctx).congr (fun σ => ?_)
                       -- the same distribution: `c' ∖ (X ∩ c') = c = V ∖ X`
                       rw [hX, hYq]
                       unfold Spec
